@@ -5,9 +5,6 @@ import (
 	"errors"
 	"fmt"
 	"math/rand"
-	"os"
-	"path/filepath"
-	"sort"
 	"strings"
 
 	"github.com/jrhy/mast"
@@ -357,23 +354,7 @@ func famFaults(f *FamCtx) {
 	n := f.N(200, 8000)
 	reported := map[string]bool{}
 	// the witnesses of the recorded findings run first, so that every run meets them
-	var witnesses []Case
-	dir := os.Getenv("VERIF_DIR")
-	if dir == "" {
-		dir = "/verif"
-	}
-	files, _ := filepath.Glob(filepath.Join(dir, "findings", "C12-*.json"))
-	sort.Strings(files)
-	for _, p := range files {
-		if b, err := os.ReadFile(p); err == nil {
-			var w struct {
-				Case Case `json:"case"`
-			}
-			if json.Unmarshal(b, &w) == nil && len(w.Case.Ops) > 0 {
-				witnesses = append(witnesses, w.Case)
-			}
-		}
-	}
+	witnesses := Witnesses("C12")
 	witnesses = append(witnesses, f.TakeCorpus()...)
 	for i := 0; i < n+len(witnesses); i++ {
 		var c Case
